@@ -10,12 +10,19 @@
    (the round trip is C17's theorem unescape_quote), (iv) explicit parentheses (C06: the resolved parent depends on
    kinds and on the parentheses only, never on indentation - the context model has no notion of indentation at all).
    (i) is decided by the metamorphic runs of the check (generated documents under random trivia plans; fixtures under
-   text-level rewritings), not by proof. *)
+   text-level rewritings), not by proof - EXCEPT for context resolution and macro expansion, for which (i) and (iv)
+   are proved at the end of this file (context_ignores_coordinates, expansion_ignores_coordinates): these two stages
+   read kinds, parameters, annotations and parentheses, never positions.  Still open for (i): the stages after
+   expansion (catalog building reads bodies through their coordinates) and the scan loop itself (lexemes ->
+   directives). *)
 From Coq Require Import List NArith Bool String.
 From JV.lib Require Import Bytes.
 From JV.gen Require Import ScannerTable.
 From JV.model Require Import ScannerSem.
-From JV.proofs Require Import TriviaProofs.
+From JV.gen Require Import DirectiveTables.
+From JV.model Require Import Core.
+From JV.spec Require Import ContextSpec.
+From JV.proofs Require Import TriviaProofs ShapeProofs.
 Import ListNotations.
 Open Scope string_scope.
 Open Scope N_scope.
@@ -87,3 +94,68 @@ Theorem line_comment_premises_met :
              Ok (set_reg (set_sstk (advance_n g 6) [StRoot]) StSingleComment).
 Proof. exact line_comment_example. Qed.
 Print Assumptions line_comment_premises_met.
+
+(* ---- context is resolved by directive kind, not by indentation (proofs/ShapeProofs.v) ----
+   Closes, for context resolution and macro expansion, parts (i) and (iv) of the gap above: whatever an
+   insertion of blanks, line ends or comments does to the POSITIONS of the lexemes, the two stages after the
+   scan that build the tree never look at them.  dshape d = kind, keyword bytes, named and unnamed parameters,
+   annotation, body present or not, '(' flag - everything a directive carries except d_kw, the coordinates of
+   its body and its include trace.  ishape of an item: the shape of the directive, or ')'.  Parentheses are
+   part of the shape ('(' is the flag d_explicit, ')' is an item of its own): they decide; indentation is not
+   in the model of these stages at all, and the offsets that are there decide nothing. *)
+Theorem context_ignores_coordinates : forall l1 l2, map ishape l1 = map ishape l2 ->
+  match resolve_all l1, resolve_all l2 with
+  | COk f1, COk f2 => map tshape f1 = map tshape f2
+  | CErr e1, CErr e2 => exists i, offence l1 i e1 /\ offence l2 i e2 /\ same_error l1 l2 i e1 e2
+  | CPanic w1, CPanic w2 => w1 = w2
+  | CFuel, CFuel => True
+  | _, _ => False
+  end.
+Proof. exact ShapeProofs.context_ignores_coordinates. Qed.
+Print Assumptions context_ignores_coordinates.
+
+(* MACRO collection, the recursion check and PASTE expansion (with its second context resolution): forests of
+   equal shapes expand to forests of equal shapes, or both fail with kw_err of the directives standing at the
+   same place of the two forests (same_place: the same path from the top; same_place_is_same_number: the same
+   number in reading order), with one and the same error kind k *)
+Theorem expansion_ignores_coordinates : forall ts1 ts2, map tshape ts1 = map tshape ts2 ->
+  match expand ts1, expand ts2 with
+  | COk f1, COk f2 => map tshape f1 = map tshape f2
+  | CErr e1, CErr e2 =>
+    exists d1 d2 k, same_place ts1 ts2 d1 d2 /\ dshape d1 = dshape d2 /\ e1 = kw_err d1 k /\ e2 = kw_err d2 k
+  | CPanic w1, CPanic w2 => w1 = w2
+  | CFuel, CFuel => True
+  | _, _ => False
+  end.
+Proof. exact ShapeProofs.expansion_ignores_coordinates. Qed.
+Print Assumptions expansion_ignores_coordinates.
+
+Theorem same_place_is_same_number : forall ts1 ts2 a b,
+  same_place ts1 ts2 a b -> map tshape ts1 = map tshape ts2 ->
+  exists i, nth_error (flatten ts1) i = Some a /\ nth_error (flatten ts2) i = Some b.
+Proof. exact ShapeProofs.same_place_preorder. Qed.
+Print Assumptions same_place_is_same_number.
+
+(* both stages in a row *)
+Theorem resolve_expand_ignores_coordinates : forall l1 l2, map ishape l1 = map ishape l2 ->
+  match resolve_all l1 >>=c expand, resolve_all l2 >>=c expand with
+  | COk f1, COk f2 => map tshape f1 = map tshape f2
+  | CErr e1, CErr e2 => ce_kind e1 = ce_kind e2
+  | CPanic w1, CPanic w2 => w1 = w2
+  | CFuel, CFuel => True
+  | _, _ => False
+  end.
+Proof. exact ShapeProofs.resolve_expand_ignores_coordinates. Qed.
+Print Assumptions resolve_expand_ignores_coordinates.
+
+(* one document in two layouts (flush left / blank lines, blanks and tabs before the keywords), through the
+   scanner model: the forests have the same shape, JSIGHT and URL with GET under it; the keywords stand at
+   offsets 0, 11, 18 and 0, 19, 28 *)
+Theorem two_layouts_one_shape :
+  map tshape (ShapeExamples.forest ShapeExamples.doc_a) = map tshape (ShapeExamples.forest ShapeExamples.doc_b) /\
+  flat_map ShapeExamples.kinds_of (map tshape (ShapeExamples.forest ShapeExamples.doc_a)) = [KJsight; KURL; KGet] /\
+  List.length (ShapeExamples.forest ShapeExamples.doc_a) = 2%nat /\
+  map (fun d => c_beg (d_kw d)) (flatten (ShapeExamples.forest ShapeExamples.doc_a)) = [0; 11; 18] /\
+  map (fun d => c_beg (d_kw d)) (flatten (ShapeExamples.forest ShapeExamples.doc_b)) = [0; 19; 28].
+Proof. exact ShapeExamples.layouts_same_shape. Qed.
+Print Assumptions two_layouts_one_shape.
